@@ -81,6 +81,13 @@ def hessian_doc(j, k, alpha, beta, half):
 
 
 class Stress:
+    fp = True  # cross-check: the same contract on the unmodified float64 code at sampled inputs (bounded)
+
+    def fp_shapes(self, tier):
+        sh = self.shapes(tier)
+        step = max(1, len(sh) // (6 if tier == "quick" else 24))
+        return sh[::step][:(6 if tier == "quick" else 24)]
+
     function = "gbasis.evals.stress_tensor.evaluate_stress_tensor / evaluate_ehrenfest_force / evaluate_ehrenfest_hessian"
     sparse = True
 
